@@ -410,9 +410,16 @@ def integrator(ctx, results):
         return
     fn, dom, leaves, pre = results['a_pid_pos_']
     loc = fn.loc(fn.entry.instrs[0])
+    # the parameters fdb / err carry the names of the fields that hold the PREVIOUS feedback / error: analyse with distinct names,
+    # otherwise sum * ctx->err (previous error) cannot be told from sum * err (current error)
+    try:
+        fn, dom, leaves = analyse(ctx, 'pid', 'a_pid_pos_', 'a_pid', ['fdb_in', 'err_in'])
+    except Unsupported as e:
+        rep.unk('D2', 'a_pid_pos_', str(e))
+        return
     s = dom.sym('sum', real=True)
     smin, smax = dom.sym('summin', real=True), dom.sym('summax', real=True)
-    ki, err = dom.sym('ki', real=True), dom.sym('err', real=True)
+    ki, err = dom.sym('ki', real=True), dom.sym('err_in', real=True)
     atoms = {'lo': (smin, s), 'hi': (s, smax), 'dir': (s * err, sp.Integer(0))}
     probs = []
     n_int = n_hold = 0
